@@ -1,7 +1,7 @@
 // C20 — the audit-log chain verifies when intact and fails when altered.
 //
 // Bounded-exhaustive enumeration (E2 histories + E4 edits) on the real implementation:
-// every history of the stated product (entries from a menu built over the 16-element content
+// every history of the stated product (entries from a menu built over the 21-element content
 // alphabet x chain restarts none/ResetChain/FinalizeChain at every position x format
 // plaintext/JSON/CEF) is written through the REAL AcraCryptoFormatter + crypto hook +
 // AuditLogHandler (wired as in Acra's own tests: logrus output and formatter = handler) into
@@ -94,6 +94,12 @@ var alphabet = []elem{
 	{"integrity-word", "integrity"},
 	{"unicode", "żółw-亀-\u00e9\u2028"},
 	{"hex40", "0123456789abcdef0123456789abcdef01234567"},
+	// bytes a formatter may pass through unescaped and a later stage may rewrite
+	{"cr", "a\rb"},
+	{"tab", "a\tb"},
+	{"esc", "a\x1bb"},
+	{"nul", "a\x00b"},
+	{"bad-utf8", "a\xffb"},
 }
 
 type entrySpec struct {
@@ -141,10 +147,10 @@ var benign = entrySpec{Msg: "m", Desc: "m"}
 // that differs from the first (some findings need two different entries, whatever they contain).
 var benign2 = entrySpec{Msg: "n", Desc: "n"}
 
-// menu: 16 messages without field, 16 field names (value "v"), 16 field values (name "f"), two
+// menu: 21 messages without field, 21 field names (value "v"), 21 field values (name "f"), two
 // word-like values, a last-sorting field with empty / blank value,
 // the two look-alike pairs chain=new / chain=end, and one entry with two fields (a, integrity):
-// and six values of other Go types: 57 entries (message "m" without field is the benign entry).
+// and six values of other Go types: 72 entries (message "m" without field is the benign entry).
 func buildMenu() []entrySpec {
 	var m []entrySpec
 	for _, a := range alphabet {
@@ -499,6 +505,79 @@ func verifyFile(format string, key []byte, path string) (o outcome) {
 	}
 	return o
 }
+
+// fileReaderPhase: verifier tools read log FILES (logging.ReadLogEntries); what they decide must not
+// depend on whether the file ends with a line break. For a log that verifies: (a) the same log
+// without its final line break verifies as well and reports the same entry; (b) the log with one
+// character of the authenticated part of its FINAL entry changed (first position where the statement
+// requires a failure, i.e. the integrity token stays in place) is rejected, written with and
+// without the final line break.
+func fileReaderPhase(r *ev.Run, p *produced, path string) {
+	if p.panic != "" || p.spans != "" || len(p.lines) == 0 {
+		return
+	}
+	fm := p.s.Format
+	om := verify(fm, auditKey, p.lines)
+	if om.failed() || om.Panic != "" {
+		return // reported by evalLog; edits of such a log say nothing
+	}
+	write := func(lines []string, finalBreak bool) {
+		data := strings.Join(lines, "\n")
+		if finalBreak {
+			data += "\n"
+		}
+		if err := os.WriteFile(path, []byte(data), 0o600); err != nil {
+			ev.Fatalf("scratch write: %v", err)
+		}
+	}
+	defer os.Remove(path)
+	report := func(class, msg string, e editT) {
+		fileMu.Lock()
+		defer fileMu.Unlock()
+		r.Violation("C20/"+fm+"/file-reader/"+class, msg+" ("+p.s.String()+")", caseT{p.s, e})
+	}
+	write(p.lines, false)
+	of := verifyFile(fm, auditKey, path)
+	r.Eval(1)
+	r.Transitions(1)
+	r.Class("file-reader:intact-without-final-line-break:"+of.class(), 1)
+	if of.Panic != "" {
+		report("panic", "verifier panicked on a log file without final line break: "+of.Panic, editT{Kind: "intact"})
+	} else if of.failed() {
+		report("honest-log-without-final-line-break-rejected", fmt.Sprintf("unmodified %s log verifies, the same file without its final line break does not: %v", fm, of.Err), editT{Kind: "intact"})
+	}
+	L := len(p.lines)
+	for pos := 0; pos < len(p.lines[L-1]); pos++ {
+		e := editT{Kind: "flip", Line: L - 1, Pos: pos}
+		ed, ok := applyEdit(p, e)
+		if !ok || ed.open != "" || ed.region != "auth" {
+			continue
+		}
+		if !verify(fm, auditKey, ed.lines).failed() {
+			return // the memory-fed verdict is evalLog's business
+		}
+		for _, fb := range []bool{true, false} {
+			write(ed.lines, fb)
+			o := verifyFile(fm, auditKey, path)
+			r.Eval(1)
+			r.Transitions(1)
+			r.Class(fmt.Sprintf("file-reader:final-entry-altered(final-line-break=%v):%s", fb, o.class()), 1)
+			r.Distinct(fmt.Sprintf("%s|file-reader|final-entry-altered|break=%v|%s", fm, fb, o.class()))
+			if o.Panic != "" {
+				report("panic", "verifier panicked on an altered log file: "+o.Panic, e)
+			} else if !o.failed() {
+				class := "altered-final-entry-accepted"
+				if !fb {
+					class = "altered-final-entry-of-a-file-without-final-line-break-accepted"
+				}
+				report(class, fmt.Sprintf("%s log file whose final entry was altered (%s) passes verification (final line break: %v)", fm, describe(e), fb), e)
+			}
+		}
+		return
+	}
+}
+
+var fileMu sync.Mutex
 
 // ---------------------------------------------------------------------------------------
 // harness-side anatomy of a produced line (independent of Acra's parsers): where the hook
@@ -1392,6 +1471,7 @@ func main() {
 					ev.Fatalf("file-fed and memory-fed verification disagree on %s: %s/%d vs %s/%d", p.s, of.class(), of.Line, om.class(), om.Line)
 				}
 			}
+			fileReaderPhase(r, p, filepath.Join(scratch, fmt.Sprintf("logf-%d", idxs[j])))
 			sk := newSink()
 			finds, complete := evalLog(p, bits, nil, sk, r.Expired)
 			sk.flush(r)
